@@ -140,13 +140,12 @@ class CONCATENATE:
 
     def spec(args):
         items = flat(args)
-        for i in range(0, 3):
-            if i < len(items) and is_err(items[i]):
+        for i in range(0, len(items)):
+            if is_err(items[i]):
                 return items[i]
         out = ''
-        for i in range(0, 3):
-            if i < len(items):
-                out = out + (items[i] if is_str(items[i]) else str(items[i]))
+        for i in range(0, len(items)):
+            out = out + (items[i] if is_str(items[i]) else str(items[i]))
         return out
 
 
@@ -164,15 +163,14 @@ class TEXTJOIN:
             return VALUE
         out = ''
         first = True
-        for i in range(0, 3):
-            if i < len(args):
-                item = args[i]
-                if item is None and truth(ignore_empty):
-                    continue
-                if not first:
-                    out = out + delimiter
-                first = False
-                out = out + ('' if item is None else item)
+        for i in range(0, len(args)):
+            item = args[i]
+            if item is None and truth(ignore_empty):
+                continue
+            if not first:
+                out = out + delimiter
+            first = False
+            out = out + ('' if item is None else item)
         return out
 
 
